@@ -21,6 +21,7 @@ from typing import Dict, List, Tuple
 from harness.extract.util import class_def, find_method, parse
 
 GEN_NAME = "AgentsCtl"
+EXTRA_GEN = {"AgentsGet": "emit_get"}      # get_action of PeriodicAgent / ProbabilisticAgent, the probability vector
 SA = "game/agent/scripted_agents/"
 
 
@@ -240,6 +241,459 @@ def emit() -> str:
     out.append(_fn("tap3ProgressKillChain", common, "Ctl", Tr(ins, prog, {}, False).stmts(m.body, 1), "`TAP003._progress_kill_chain`"))
     out.append(_resp_sites(t3))
     out.append("end Primaite.Gen.AgentsCtl\n")
+    return "\n".join(out)
+
+
+# ------------------------------------------------------------------ the scan responses TAP001 reads, and where they are built
+def _scan_sites() -> str:
+    """`ScanSimOk` tie (theorem `C19_gen_scan_resp_sites`): (1) every RequestResponse the three NMAP request handlers build
+    (request name, the method that produces `results`, status, source of `data`); (2) every use of `scan_results` (= the
+    `.data` of the previous scan's response) in `TAP001._scan_action_response_handler`, classified; (3) the guard in front of
+    the read in `_scan_handler`."""
+    nm = parse("simulator/system/applications/nmap.py")
+    regs = {}
+    for c in ast.walk(nm):
+        if isinstance(c, ast.Call) and ast.unparse(c.func).endswith("add_request"):
+            kw = {k.arg: k.value for k in c.keywords}
+            if "name" in kw and isinstance(kw["name"], ast.Constant) and "request_type" in kw:
+                f = [k.value for k in getattr(kw["request_type"], "keywords", []) if k.arg == "func"]
+                if len(f) == 1 and isinstance(f[0], ast.Name):
+                    regs[kw["name"].value] = f[0].id
+    sites = []
+    for req in ("ping_scan", "port_scan", "network_service_recon"):
+        if req not in regs:
+            raise Unsupported(f"nmap.py: request {req} is not registered with a named handler")
+        fn = [f for f in ast.walk(nm) if isinstance(f, ast.FunctionDef) and f.name == regs[req]]
+        if len(fn) != 1:
+            raise Unsupported(f"nmap.py: {len(fn)} definitions of {regs[req]}")
+        prod = ""
+        for st in ast.walk(fn[0]):
+            if isinstance(st, ast.Assign) and ast.unparse(st.targets[0]) == "results" and isinstance(st.value, ast.Call):
+                js = [ast.unparse(k.value) for k in st.value.keywords if k.arg == "json_serializable"]
+                prod = ast.unparse(st.value.func) + ("/json" if js == ["True"] else "/raw")
+        for r in [x for x in ast.walk(fn[0]) if isinstance(x, ast.Return)]:
+            v = r.value
+            if isinstance(v, ast.Call) and ast.unparse(v.func) == "RequestResponse.from_bool" and ast.unparse(v.args[0]) == "False":
+                sites.append((req, prod, "failure", "{}"))
+            elif isinstance(v, ast.Call) and ast.unparse(v.func) == "RequestResponse":
+                kw = {k.arg: k.value for k in v.keywords}
+                if v.args or not isinstance(kw.get("status"), ast.Constant):
+                    raise Unsupported("nmap.py: RequestResponse site without a literal status")
+                sites.append((req, prod, kw["status"].value, ast.unparse(kw["data"]) if "data" in kw else "{}"))
+            else:
+                raise Unsupported(f"nmap.py: {regs[req]} returns {ast.unparse(v)[:60]}")
+    fb = [f for f in ast.walk(parse("interface/request.py")) if isinstance(f, ast.FunctionDef) and f.name == "from_bool"]
+    fb_data = sorted({ast.unparse(k.value) for c in ast.walk(fb[0]) if isinstance(c, ast.Call) for k in c.keywords if k.arg == "data"}) if fb else ["?"]
+    t1 = class_def(parse(SA + "TAP001.py"), "TAP001")
+    h = find_method(t1, "_scan_action_response_handler")
+    parent = {}
+    for n in ast.walk(h):
+        for ch in ast.iter_child_nodes(n):
+            parent[ch] = n
+    uses = []
+    for n in ast.walk(h):
+        if isinstance(n, ast.Name) and n.id == "scan_results" and isinstance(n.ctx, ast.Load):
+            p = parent[n]
+            if isinstance(p, ast.Attribute) and isinstance(parent[p], ast.Call) and parent[p].func is p:
+                call = parent[p]
+                use = f".{p.attr}({', '.join(ast.unparse(a) for a in call.args)})"
+                pp = parent[call]
+                if isinstance(pp, ast.Attribute):                     # a method of the looked-up entry: `.get(k, {}).items()`
+                    use += "." + pp.attr + "()"
+                uses.append(use)
+            elif isinstance(p, ast.For) and p.iter is n:
+                uses.append("for-in")
+            elif isinstance(p, ast.Compare):
+                uses.append("compare")
+            elif isinstance(p, (ast.Call, ast.keyword, ast.FormattedValue)):
+                uses.append("passed-on")
+            else:
+                raise Unsupported("TAP001._scan_action_response_handler uses scan_results in " + ast.unparse(p)[:60])
+    sh = find_method(t1, "_scan_handler")
+    guard = [ast.unparse(x.test) for x in ast.walk(sh) if isinstance(x, ast.If)
+             and any(isinstance(y, ast.Attribute) and y.attr == "data" for b in x.body for y in ast.walk(b))]
+    others = sorted({m.name for m in t1.body if isinstance(m, ast.FunctionDef) and m.name not in ("_scan_handler", "_scan_setup_handler")
+                     for y in ast.walk(m) if isinstance(y, ast.Attribute) and y.attr == "data" and ast.unparse(y.value).endswith("response")})
+    q = lambda x: '"' + str(x).replace('"', "'") + '"'  # noqa: E731
+    strs = lambda xs: "[" + ", ".join(q(x) for x in xs) + "]"  # noqa: E731
+    return ("/-- `ScanSimOk` tie.  Every response the three NMAP request handlers build: (request, producer of `results`, status, data) -/\n"
+            f"def nmapScanSites : List (String × String × String × String) := [{', '.join('(' + ', '.join(q(x) for x in s) + ')' for s in sites)}]\n"
+            f"/-- the `data` of `RequestResponse.from_bool` -/\ndef fromBoolData : List String := {strs(fb_data)}\n"
+            "/-- every use of `scan_results` (the previous scan's `response.data`) in `TAP001._scan_action_response_handler` -/\n"
+            f"def tap1ScanUses : List String := {strs(uses)}\n"
+            f"/-- the guard(s) of `_scan_handler` around the read of `.data`; other TAP001 methods that touch `response.data` -/\n"
+            f"def tap1ScanGuards : List String := {strs(guard)}\ndef tap1OtherDataReaders : List String := {strs(others)}\n")
+
+
+# ------------------------------------------------------------------ get_action of PeriodicAgent / ProbabilisticAgent, the vector
+D_PROBS = "self.config.agent_settings.action_probabilities"
+P_SET = {"self.config.agent_settings.max_executions": "maxExec", "self.config.agent_settings.frequency": "frequency",
+         "self.config.agent_settings.variance": "variance"}
+P_ATTR = {"self.next_execution_timestep": "next", "self.num_executions": "numExec"}
+WRAPPERS = ("np.asarray", "np.array", "list", "np.fromiter", "tuple")
+
+GET_PRELUDE = """/-! ### `get_action` of PeriodicAgent / ProbabilisticAgent and the probability vector, statement by statement -/
+
+/-- An insertion-ordered `Dict[int, float]` (keys distinct; weights in units of a common denominator). -/
+abbrev Dict := List (Nat × Nat)
+/-- `d[k]`; `none` = KeyError -/
+def Dict.sub (d : Dict) (k : Nat) : Option Nat := (d.find? (·.1 == k)).map (·.2)
+/-- `d.values()` / `d.keys()` / iteration: insertion order -/
+def Dict.vals (d : Dict) : List Nat := d.map (·.2)
+def Dict.keys (d : Dict) : List Nat := d.map (·.1)
+/-- `for x in xs: out.append(f x)` starting from `out`; `none` = the body raised -/
+def forAppend {α β} (xs : List α) (f : α → Option β) (out : List β) : Option (List β) :=
+  xs.foldlM (fun acc x => (f x).map fun y => acc ++ [y]) out
+/-- `v / v.sum()`: the weights are in units of a common denominator and numpy samples on `cumsum(p) / cumsum(p)[-1]`, so the
+sampled index does not depend on the scale (model `choice` scans against `ws.sum`); the rescaled vector is the same weight list. -/
+def rescale (v : List Nat) : List Nat := v
+
+/-- The two attributes `PeriodicAgent.get_action` reads and writes; `raised`: `random.randint` got an empty range. -/
+structure Per where
+  next : Int
+  numExec : Int
+  raised : Bool := false
+deriving DecidableEq, Repr
+"""
+
+
+class TrVec:
+    """Expressions over ONE dictionary (`action_probabilities`, possibly through local aliases) that build a list:
+    result (Lean term, type) with type in dict | nat | list (cannot raise) | olist (Option (List Nat): may raise KeyError) | onat."""
+
+    def __init__(self):
+        self.names: Dict[str, Tuple[str, str]] = {}
+
+    def expr(self, e: ast.AST) -> Tuple[str, str]:
+        src = ast.unparse(e)
+        if src == D_PROBS:
+            return "tb", "dict"
+        if isinstance(e, ast.Name) and e.id in self.names:
+            return self.names[e.id]
+        if isinstance(e, ast.Constant) and isinstance(e.value, int) and not isinstance(e.value, bool) and e.value >= 0:
+            return f"({e.value} : Nat)", "nat"
+        if isinstance(e, ast.Call) and ast.unparse(e.func) in WRAPPERS and len(e.args) == 1 \
+                and all(k.arg == "dtype" for k in e.keywords):
+            v, t = self.expr(e.args[0])
+            if t == "dict":                                   # list(d) = the keys
+                return f"(Dict.keys {v})", "list"
+            if t not in ("list", "olist"):
+                raise Unsupported(f"{src}: wrapper around a {t}")
+            return v, t
+        if isinstance(e, ast.Call) and ast.unparse(e.func) == "len" and len(e.args) == 1:
+            v, t = self.expr(e.args[0])
+            if t not in ("dict", "list"):
+                raise Unsupported(f"{src}: len of a {t}")
+            return f"(List.length {v})", "nat"
+        if isinstance(e, ast.Call) and ast.unparse(e.func) == "range" and len(e.args) == 1:
+            v, t = self.expr(e.args[0])
+            if t != "nat":
+                raise Unsupported(f"{src}: range of a {t}")
+            return f"(List.range {v})", "list"
+        if isinstance(e, ast.Call) and isinstance(e.func, ast.Attribute) and e.func.attr in ("values", "keys") and not e.args:
+            v, t = self.expr(e.func.value)
+            if t != "dict":
+                raise Unsupported(f"{src}: .{e.func.attr}() of a {t}")
+            return f"(Dict.{'vals' if e.func.attr == 'values' else 'keys'} {v})", "list"
+        if isinstance(e, ast.Subscript):
+            v, t = self.expr(e.value)
+            k, kt = self.expr(e.slice)
+            if t != "dict" or kt != "nat":
+                raise Unsupported(f"{src}: subscript of a {t} with a {kt}")
+            return f"(Dict.sub {v} {k})", "onat"
+        if isinstance(e, ast.ListComp) and len(e.generators) == 1 and not e.generators[0].ifs \
+                and isinstance(e.generators[0].target, ast.Name):
+            g = e.generators[0]
+            it, itt = self.expr(g.iter)
+            if itt == "dict":
+                it, itt = f"(Dict.keys {it})", "list"
+            if itt != "list":
+                raise Unsupported(f"{src}: comprehension over a {itt}")
+            var = "x_" + g.target.id
+            saved = dict(self.names)
+            self.names[g.target.id] = (var, "nat")
+            elt, et = self.expr(e.elt)
+            self.names = saved
+            if et == "onat":
+                return f"(List.mapM (fun {var} => {elt}) {it})", "olist"
+            if et == "nat":
+                return f"(List.map (fun {var} => {elt}) {it})", "list"
+            raise Unsupported(f"{src}: comprehension element of type {et}")
+        if isinstance(e, ast.BinOp) and isinstance(e.op, ast.Div) and ast.unparse(e.right) == ast.unparse(e.left) + ".sum()":
+            v, t = self.expr(e.left)
+            if t == "list":
+                return f"(rescale {v})", "list"
+            if t == "olist":
+                return f"(Option.map rescale {v})", "olist"
+            raise Unsupported(f"{src}: rescaling a {t}")
+        raise Unsupported("vector expression " + src[:100])
+
+    def body(self, body: List[ast.stmt], ind: int) -> str:
+        """Statements of a function that returns a list: local aliases, `out = []` + append loop, `return e` -> Option (List Nat)."""
+        pad = "  " * ind
+        body = [b for b in body if not _inert(b)]
+        if not body:
+            raise Unsupported("a path ends without return")
+        st, rest = body[0], body[1:]
+        if isinstance(st, ast.Return) and st.value is not None:
+            v, t = self.expr(st.value)
+            if t == "list":
+                return f"{pad}some {v}"
+            if t == "olist":
+                return pad + v
+            raise Unsupported("return of a " + t)
+        if isinstance(st, ast.Assign) and len(st.targets) == 1 and isinstance(st.targets[0], ast.Name):
+            name = st.targets[0].id
+            if isinstance(st.value, ast.List) and not st.value.elts:
+                self.names[name] = ("v_" + name, "list")
+                return f"{pad}let v_{name} : List Nat := []\n" + self.body(rest, ind)
+            v, t = self.expr(st.value)
+            if t == "olist":
+                self.names[name] = ("v_" + name, "list")
+                return f"{pad}match {v} with\n{pad}| none => none\n{pad}| some v_{name} =>\n" + self.body(rest, ind + 1)
+            if t == "onat":
+                raise Unsupported("a local holding one looked-up value")
+            ty = {"dict": "Dict", "nat": "Nat", "list": "List Nat"}[t]
+            self.names[name] = ("v_" + name, t)
+            return f"{pad}let v_{name} : {ty} := {v}\n" + self.body(rest, ind)
+        if isinstance(st, ast.For) and not st.orelse and isinstance(st.target, ast.Name) and len(st.body) == 1:
+            b = st.body[0]
+            if isinstance(b, ast.Expr) and isinstance(b.value, ast.Call) and isinstance(b.value.func, ast.Attribute) \
+                    and b.value.func.attr == "append" and isinstance(b.value.func.value, ast.Name) and len(b.value.args) == 1:
+                acc = b.value.func.value.id
+                if self.names.get(acc, ("", ""))[1] != "list":
+                    raise Unsupported("append to something that is not a local list")
+                it, itt = self.expr(st.iter)
+                if itt == "dict":
+                    it, itt = f"(Dict.keys {it})", "list"
+                if itt != "list":
+                    raise Unsupported("loop over a " + itt)
+                var = "x_" + st.target.id
+                saved = dict(self.names)
+                self.names[st.target.id] = (var, "nat")
+                elt, et = self.expr(b.value.args[0])
+                self.names = saved
+                f = f"(fun {var} => {elt})" if et == "onat" else (f"(fun {var} => some {elt})" if et == "nat" else None)
+                if f is None:
+                    raise Unsupported("appending a " + et)
+                old = self.names[acc][0]
+                return (f"{pad}match forAppend {it} {f} {old} with\n{pad}| none => none\n{pad}| some v_{acc} =>\n"
+                        + self.body(rest, ind + 1))
+        raise Unsupported("statement " + ast.unparse(st)[:100])
+
+
+class TrPer:
+    """`PeriodicAgent._set_next_execution_timestep` / `get_action`: integer attributes, settings and parameters; `+`, unary `-`,
+    `==`, `!=`, `<`, `<=`, `>`, `>=`, `and`/`or`/`not`; `x += e`; ONE `random.randint(lo, hi)` (the draw `d`; empty range raises);
+    a call of the translated `_set_next_execution_timestep`; `return "<action>", {literal dict}`."""
+    CMP = {ast.Eq: "==", ast.NotEq: "!=", ast.Lt: "<", ast.LtE: "≤", ast.Gt: ">", ast.GtE: "≥"}
+
+    def __init__(self, params: List[str], returns_action: bool):
+        self.names = {p: (p, "int") for p in params}
+        self.returns_action = returns_action
+        self.draws = 0
+
+    def expr(self, e: ast.AST) -> Tuple[str, str]:
+        src = ast.unparse(e)
+        if src in P_ATTR:
+            return "s." + P_ATTR[src], "int"
+        if src in P_SET:
+            return P_SET[src], "int"
+        if isinstance(e, ast.Name) and e.id in self.names:
+            return self.names[e.id]
+        if isinstance(e, ast.Constant) and isinstance(e.value, bool):
+            return ("true" if e.value else "false"), "bool"
+        if isinstance(e, ast.Constant) and isinstance(e.value, int):
+            return f"({e.value} : Int)", "int"
+        if isinstance(e, ast.UnaryOp) and isinstance(e.op, ast.USub):
+            v, t = self.expr(e.operand)
+            if t != "int":
+                raise Unsupported(f"{src}: - of a {t}")
+            return f"(-{v})", "int"
+        if isinstance(e, ast.UnaryOp) and isinstance(e.op, ast.Not):
+            v, t = self.expr(e.operand)
+            if t != "bool":
+                raise Unsupported(f"{src}: not of a {t}")
+            return f"(!{v})", "bool"
+        if isinstance(e, ast.BinOp) and isinstance(e.op, (ast.Add, ast.Sub)):
+            l, lt = self.expr(e.left)
+            r, rt = self.expr(e.right)
+            if lt != "int" or rt != "int":
+                raise Unsupported(f"{src}: arithmetic on non-integers")
+            return f"({l} {'+' if isinstance(e.op, ast.Add) else '-'} {r})", "int"
+        if isinstance(e, ast.Compare) and len(e.ops) == 1 and type(e.ops[0]) in self.CMP:
+            l, lt = self.expr(e.left)
+            r, rt = self.expr(e.comparators[0])
+            if lt != "int" or rt != "int":
+                raise Unsupported(f"{src}: comparison of {lt} with {rt}")
+            op = self.CMP[type(e.ops[0])]
+            return (f"({l} {op} {r})" if op in ("==", "!=") else f"(decide ({l} {op} {r}))"), "bool"
+        if isinstance(e, ast.BoolOp):
+            parts = [self.expr(v) for v in e.values]
+            if any(t != "bool" for _, t in parts):
+                raise Unsupported(f"{src}: and/or over non-Booleans")
+            return "(" + (" && " if isinstance(e.op, ast.And) else " || ").join(p for p, _ in parts) + ")", "bool"
+        raise Unsupported("expression " + src[:100])
+
+    def end(self) -> str:
+        return '(s, "none", [])' if self.returns_action else "s"
+
+    def stmts(self, body: List[ast.stmt], ind: int) -> str:
+        pad = "  " * ind
+        body = [b for b in body if not _inert(b)]
+        if not body:
+            if self.returns_action:
+                raise Unsupported("a path of get_action ends without return")
+            return pad + "s"
+        st, rest = body[0], body[1:]
+        if isinstance(st, ast.Return):
+            if not self.returns_action:
+                if st.value is not None:
+                    raise Unsupported("return with a value")
+                return pad + "s"
+            v = st.value
+            if not (isinstance(v, ast.Tuple) and len(v.elts) == 2 and isinstance(v.elts[0], ast.Constant)
+                    and isinstance(v.elts[0].value, str) and isinstance(v.elts[1], ast.Dict)
+                    and all(isinstance(k, ast.Constant) and isinstance(k.value, str) for k in v.elts[1].keys)):
+                raise Unsupported("return of something other than (\"action\", {literal keys}): " + ast.unparse(st)[:80])
+            q = lambda x: '"' + str(x).replace('"', "'") + '"'  # noqa: E731
+            items = ", ".join(f"({q(k.value)}, {q(ast.unparse(x))})" for k, x in zip(v.elts[1].keys, v.elts[1].values))
+            return f"{pad}(s, {q(v.elts[0].value)}, [{items}])"
+        if isinstance(st, ast.AugAssign) and isinstance(st.op, (ast.Add, ast.Sub)) and ast.unparse(st.target) in P_ATTR:
+            val, vt = self.expr(st.value)
+            if vt != "int":
+                raise Unsupported("augmented assignment of a " + vt)
+            f = P_ATTR[ast.unparse(st.target)]
+            op = "+" if isinstance(st.op, ast.Add) else "-"
+            return f"{pad}let s : Per := {{ s with {f} := (s.{f} {op} {val}) }}\n" + self.stmts(rest, ind)
+        if isinstance(st, ast.Assign) and len(st.targets) == 1:
+            tgt = ast.unparse(st.targets[0])
+            v = st.value
+            if isinstance(v, ast.Call) and ast.unparse(v.func) == "random.randint" and len(v.args) == 2 and not v.keywords \
+                    and isinstance(st.targets[0], ast.Name):
+                self.draws += 1
+                if self.draws > 1:
+                    raise Unsupported("more than one random.randint")
+                lo, lt = self.expr(v.args[0])
+                hi, ht = self.expr(v.args[1])
+                if lt != "int" or ht != "int":
+                    raise Unsupported("randint bounds")
+                self.names[tgt] = ("v_" + tgt, "int")
+                return (f"{pad}if decide ({lo} ≤ {hi}) then\n{pad}  let v_{tgt} : Int := d\n{self.stmts(rest, ind + 1)}\n"
+                        f"{pad}else\n{pad}  {{ s with raised := true }}")
+            val, vt = self.expr(v)
+            if isinstance(st.targets[0], ast.Name):
+                self.names[tgt] = ("v_" + tgt, vt)
+                return f"{pad}let v_{tgt} : {'Int' if vt == 'int' else 'Bool'} := {val}\n" + self.stmts(rest, ind)
+            if tgt not in P_ATTR or vt != "int":
+                raise Unsupported("assignment to " + tgt)
+            return f"{pad}let s : Per := {{ s with {P_ATTR[tgt]} := {val} }}\n" + self.stmts(rest, ind)
+        if isinstance(st, ast.Expr) and isinstance(st.value, ast.Call) \
+                and ast.unparse(st.value.func) == "self._set_next_execution_timestep" and self.returns_action:
+            c = st.value
+            kw = {k.arg: k.value for k in c.keywords}
+            args = list(c.args) + [kw[k] for k in ("timestep", "variance")[len(c.args):] if k in kw]
+            if len(args) != 2:
+                raise Unsupported("call " + ast.unparse(c)[:80])
+            self.draws += 1
+            if self.draws > 1:
+                raise Unsupported("more than one schedule draw on the way through get_action")
+            a, at = self.expr(args[0])
+            b, bt = self.expr(args[1])
+            if at != "int" or bt != "int":
+                raise Unsupported("arguments of _set_next_execution_timestep")
+            return (f"{pad}let s : Per := periodicSetNext {a} {b} d s\n{pad}if s.raised then (s, \"raised\", []) else\n"
+                    + self.stmts(rest, ind))
+        if isinstance(st, ast.If):
+            t, tt = self.expr(st.test)
+            if tt != "bool":
+                raise Unsupported("truthiness of a non-Boolean test: " + ast.unparse(st.test)[:80])
+            saved, d0 = dict(self.names), self.draws
+            then_ = self.stmts(list(st.body) + ([] if _ends(st.body) else rest), ind + 1)
+            self.names, d1, self.draws = dict(saved), self.draws, d0
+            else_ = self.stmts(list(st.orelse) + ([] if _ends(st.orelse) else rest), ind + 1)
+            self.names, self.draws = saved, max(d1, self.draws)
+            return f"{pad}if {t} then\n{then_}\n{pad}else\n{else_}"
+        raise Unsupported("statement " + ast.unparse(st)[:100])
+
+
+def _periodic_part() -> str:
+    pa = class_def(parse(SA + "random_agent.py"), "PeriodicAgent")
+    sn = find_method(pa, "_set_next_execution_timestep")
+    if [a.arg for a in sn.args.args] != ["self", "timestep", "variance"]:
+        raise Unsupported("_set_next_execution_timestep: parameters " + str([a.arg for a in sn.args.args]))
+    ga = find_method(pa, "get_action")
+    if [a.arg for a in ga.args.args] != ["self", "obs", "timestep"]:
+        raise Unsupported("PeriodicAgent.get_action: parameters " + str([a.arg for a in ga.args.args]))
+    return ("/-- `PeriodicAgent._set_next_execution_timestep(timestep, variance)`; `d` = what `random.randint` returns -/\n"
+            "def periodicSetNext (timestep variance : Int) (d : Int) (s : Per) : Per :=\n"
+            + TrPer(["timestep", "variance"], False).stmts(sn.body, 1) + "\n\n"
+            "/-- `PeriodicAgent.get_action(obs, timestep)`: new attributes, the action name, and key ↦ source expression of its "
+            "parameters; `d` = the schedule draw -/\n"
+            "def periodicGetAction (maxExec frequency variance : Int) (timestep : Int) (d : Int) (s : Per) : "
+            "Per × String × List (String × String) :=\n" + TrPer(["timestep"], True).stmts(ga.body, 1) + "\n")
+
+
+PERIODIC_FALLBACK = """def periodicSetNext (timestep variance : Int) (d : Int) (s : Per) : Per := { s with raised := true }
+def periodicGetAction (maxExec frequency variance : Int) (timestep : Int) (d : Int) (s : Per) : Per × String × List (String × String) :=
+  ({ s with raised := true }, "untranslated", [])
+"""
+PROB_FALLBACK = """def probabilities (tb : Dict) : Option (List Nat) := none
+def probGetAction (rngChoice : Nat → List Nat → Option Nat) (nActions : Nat) (tb : Dict) : Option Nat := none
+"""
+
+
+SCAN_FALLBACK = """def nmapScanSites : List (String × String × String × String) := []
+def fromBoolData : List String := []
+def tap1ScanUses : List String := []
+def tap1ScanGuards : List String := []
+def tap1OtherDataReaders : List String := []
+"""
+
+
+def _prob_part() -> str:
+    pr = class_def(parse(SA + "probabilistic_agent.py"), "ProbabilisticAgent")
+    out = []
+    out.append("/-- `ProbabilisticAgent.probabilities` (the vector handed to numpy); `none` = KeyError -/\n"
+               "def probabilities (tb : Dict) : Option (List Nat) :=\n" + TrVec().body(find_method(pr, "probabilities").body, 1) + "\n")
+    # get_action: `choice = self.rng.choice(len(self.action_manager.action_map), p=self.probabilities)`; logger; `return self.action_manager.get_action(choice)`
+    body = [b for b in find_method(pr, "get_action").body if not _inert(b)]
+    ok = (len(body) == 2 and isinstance(body[0], ast.Assign) and isinstance(body[0].targets[0], ast.Name)
+          and isinstance(body[0].value, ast.Call) and ast.unparse(body[0].value.func) == "self.rng.choice"
+          and isinstance(body[1], ast.Return))
+    if not ok:
+        raise Unsupported("ProbabilisticAgent.get_action: not `x = self.rng.choice(…); return …`")
+    call, var = body[0].value, body[0].targets[0].id
+    kw = {k.arg: ast.unparse(k.value) for k in call.keywords}
+    if [ast.unparse(a) for a in call.args] != ["len(self.action_manager.action_map)"] or kw != {"p": "self.probabilities"}:
+        raise Unsupported("ProbabilisticAgent.get_action: rng.choice called as " + ast.unparse(call)[:100])
+    if ast.unparse(body[1].value) != f"self.action_manager.get_action({var})":
+        raise Unsupported("ProbabilisticAgent.get_action returns " + ast.unparse(body[1].value)[:100])
+    out.append("/-- `ProbabilisticAgent.get_action`: the index handed to `action_manager.get_action`; `rngChoice n p` = "
+               "`self.rng.choice(n, p=p)` (`none` = it raised); `nActions` = `len(self.action_manager.action_map)` -/\n"
+               "def probGetAction (rngChoice : Nat → List Nat → Option Nat) (nActions : Nat) (tb : Dict) : Option Nat :=\n"
+               "  match probabilities tb with\n  | none => none\n  | some v_p =>\n"
+               f"    match rngChoice nActions v_p with\n    | none => none\n    | some v_{var} => some v_{var}\n")
+    return "\n".join(out)
+
+
+def emit_get() -> str:
+    """Gen/AgentsGet.lean.  The C19 driver evaluates these functions (counter-model search), so this file ALWAYS defines them:
+    a method the translator cannot handle gets a placeholder and its reason is listed in `untranslated`
+    (obligations `extract:AgentsGet:<part>` and theorem `C19_gen_get_translated`)."""
+    out = ["set_option linter.unusedVariables false", "namespace Primaite.Gen.AgentsGet", GET_PRELUDE]
+    missing = []
+    for part, fn, fallback in (("periodic", _periodic_part, PERIODIC_FALLBACK), ("probabilistic", _prob_part, PROB_FALLBACK),
+                               ("scanSites", _scan_sites, SCAN_FALLBACK)):
+        try:
+            out.append(fn())
+        except (Unsupported, ValueError) as e:
+            missing.append((part, f"{type(e).__name__}: {e}"))
+            out.append(fallback)
+    q = lambda x: '"' + str(x).replace('"', "'").replace("\\", "/").replace("\n", " ") + '"'  # noqa: E731
+    out.append("/-- parts the translator refused, with the reason (empty = everything above is a translation) -/\n"
+               f"def untranslated : List (String × String) := [{', '.join(f'({q(a)}, {q(b)})' for a, b in missing)}]\n")
+    out.append("end Primaite.Gen.AgentsGet\n")
     return "\n".join(out)
 
 
